@@ -1,7 +1,7 @@
 From Coq Require Import Lia.
 (* C09 — stream discipline: position independence. *)
 From VF Require Import Model.Compiler.
-From VF Require Import Model.Reader Model.Writer Proofs.ReaderProps Proofs.ShiftProps Gen.GeneratedOk.
+From VF Require Import Model.Reader Model.Writer Proofs.ReaderProps Proofs.ShiftProps Proofs.UnionExt Gen.GeneratedOk.
 From VF Require Proofs.CompilerProps Proofs.CompiledRoundTrip Proofs.CompilerGaps Proofs.CompilerStatic Proofs.CompiledAligned.
 Open Scope string_scope. Open Scope list_scope. Open Scope Z_scope.
 
@@ -27,6 +27,11 @@ Theorem bytes_after_irrelevant : forall c fuel t, simple t = true ->
   forall s1 s2 pos ctx r, read_ty c fuel t s1 pos ctx = Ok r -> read_ty c fuel t (s1 ++ s2) pos ctx = Ok r.
 Proof. exact read_ty_ext. Qed.
 
+(* ... also for dynamically sized unions, whose extent is the furthest end any member reached: no member reads behind the union's extent any more *)
+Theorem bytes_after_irrelevant_with_dynamic_unions : forall c fuel t, simple_u c t = true ->
+  forall s1 s2 pos ctx r, read_ty c fuel t s1 pos ctx = Ok r -> read_ty c fuel t (s1 ++ s2) pos ctx = Ok r.
+Proof. exact read_ty_ext_u. Qed.
+
 (* the COMPILED reader (C03's theorem composed with position_independent): the generated statements give at position |pre| + pos of pre ++ s what
    they give at pos of s, shifted by |pre| - the same value or both fail *)
 Theorem compiled_reader_position_independent : forall pre c fuel nm fs p,
@@ -41,6 +46,7 @@ Theorem compiled_aligned_reader_position_independent : forall pre c fuel nm fs p
   forall s pos, 0 <= pos -> CompilerProps.req (read_compiled c fuel true fs (pre ++ s) (zlen pre + pos)) (shift (zlen pre) (read_compiled c fuel true fs s pos)).
 Proof. exact CompiledAligned.compiled_aligned_position_independent. Qed.
 
+Print Assumptions bytes_after_irrelevant_with_dynamic_unions.
 Print Assumptions compiled_aligned_reader_position_independent.
 Print Assumptions compiled_reader_position_independent.
 Print Assumptions position_independent.
